@@ -383,20 +383,34 @@ impl IsoDate {
         // 1. Assert: year, month, day, years, months, weeks, and days are integers.
         // 2. Assert: overflow is either "constrain" or "reject".
         // 3. Let intermediate be ! BalanceISOYearMonth(year + years, month + months).
-        let intermediate = balance_iso_year_month(
-            self.year + duration.years.as_date_value()?,
-            i32::from(self.month) + duration.months.as_date_value()?,
-        );
+        // NOTE: the sums are formed in i64; with extreme (but valid) duration fields they exceed i32.
+        let month_index = i64::from(self.month) + i64::from(duration.months.as_date_value()?) - 1;
+        let balanced_year = i64::from(self.year)
+            + i64::from(duration.years.as_date_value()?)
+            + month_index.div_euclid(12);
+        let balanced_month = month_index.rem_euclid(12) as u8 + 1;
+        // A year that does not fit the ISO year range cannot pass the limit check of step 4.
+        if !(-271_821..=275_760).contains(&balanced_year) {
+            return Err(
+                TemporalError::range().with_message("Date is not within ISO date time limits.")
+            );
+        }
 
         // 4. Let intermediate be ? RegulateISODate(intermediate.[[Year]], intermediate.[[Month]], day, overflow).
         let intermediate =
-            Self::new_with_overflow(intermediate.0, intermediate.1, self.day, overflow)?;
+            Self::new_with_overflow(balanced_year as i32, balanced_month, self.day, overflow)?;
 
         // 5. Set days to days + 7 × weeks.
-        let additional_days =
-            duration.days.as_date_value()? + (duration.weeks.as_date_value()? * 7);
+        let additional_days = i64::from(duration.days.as_date_value()?)
+            + i64::from(duration.weeks.as_date_value()?) * 7;
+        // `intermediate` is within the limits, so a result further than twice their span away is not.
+        if additional_days.abs() > 2 * i64::from(MAX_EPOCH_DAYS) {
+            return Err(
+                TemporalError::range().with_message("Date is not within ISO date time limits.")
+            );
+        }
         // 6. Let d be intermediate.[[Day]] + days.
-        let intermediate_days = i32::from(intermediate.day) + additional_days;
+        let intermediate_days = i32::from(intermediate.day) + additional_days as i32;
 
         // 7. Return BalanceISODate(intermediate.[[Year]], intermediate.[[Month]], d).
         Ok(Self::balance(
